@@ -43,7 +43,7 @@ T_DERIVE2 = '#[cw_serde] derives (Clone, PartialEq) are structural; thiserror #[
 T_R4 = 'rewrite R4: std iterator adapters / Option::unwrap_or_else / Vec::contains replaced by helper loops that are themselves verified in the same file (helpers.rs); std is trusted to behave like them'
 T_R2 = 'rewrite R2: format!(..) and Response::add_attribute(s) are dropped: event attributes and error strings are NOT verified (message payloads are)'
 T_DEC = 'Decimal -> Decimal256 (implemented in math.rs through text) is value preserving (C18 not applicable)'
-T_CHAIN = 'chain semantics (bank send, cw20-base transfer/transfer_from/mint/burn/send-hook order, atomic revert of a failed transaction) are NOT verified here: the handler contracts pin the exact messages emitted, the ledger effect of those messages is the documented behaviour of the bank module and cw20-base 1.0.0'
+T_CHAIN = 'chain semantics are a SPECIFICATION, not verified code: units/mlem_ledger.rs states it explicitly (a transfer / TransferFrom / Send moves exactly `amount` of one asset between exactly two balances and needs a positive covered amount; Mint / Burn change one balance and the supply; funds and cw20 Send deliver before the handler runs; messages of a transaction run in order and a failure reverts everything). The handler contracts pin the exact messages emitted; what those messages do to balances over a whole transaction is then machine-checked against that specification (obligations ledger.*)'
 
 PAIR_TRUST = [T_VERUS, T_U256, T_UINT128, T_INTO, T_DERIVE, T_CW, T_API, T_STORE, T_QUERY, T_SERDE, T_DERIVE2, T_R4, T_R2, T_DEC, T_OVERFLOW]
 
